@@ -362,7 +362,7 @@ the zero-padded `p[1..]`, and the `1 + xC` shortcut under its four conditions) a
 low product. -/
 theorem invModXn_spec {o : Ops α} {φ : α → R} (h : HomE o φ) (c : Ctx) (hmm : MiddleSpec c o φ) :
     ∀ (f : Nat) (p : List α) (tmplen : Nat), 1 ≤ p.length → p.length ≤ 2 ^ f → p.length ≤ 2 ^ 62 →
-      4 * p.length ≤ tmplen → Fits c p.length → (∃ i, o.inv (p.getD 0 o.zero) = some i) →
+      4 * p.length ≤ tmplen → Fits c (p.length - p.length / 2) → (∃ i, o.inv (p.getD 0 o.zero) = some i) →
       ∃ z, invModXn c o (f + 1) p tmplen = some z ∧ z.length = p.length ∧
         IsInv (poly (p.map φ)) (poly (z.map φ)) p.length := by
   intro f
@@ -587,7 +587,7 @@ theorem divModXn_spec {o : Ops α} {φ : α → R} (h : HomE o φ) (c : Ctx) (hm
     (p q : List α) (tmplen : Nat) (hl : p.length = q.length) (h1 : 1 ≤ q.length)
     (h62 : q.length ≤ 2 ^ 62) (ht : 5 * q.length ≤ tmplen)
     (ht8 : 2 ≤ q.length → 8 * (q.length - q.length / 2) ≤ tmplen)
-    (hfit : Fits c q.length) (hinv : ∃ i, o.inv (q.getD 0 o.zero) = some i) :
+    (hfit : Fits c (q.length - q.length / 2)) (hinv : ∃ i, o.inv (q.getD 0 o.zero) = some i) :
     ∃ z, divModXn c o p q tmplen = some z ∧ z.length = q.length ∧
       ∀ k, k < q.length → (poly (q.map φ) * poly (z.map φ)).coeff k = (poly (p.map φ)).coeff k := by
   unfold divModXn
